@@ -29,7 +29,11 @@ func (*C03) Plan(tier string) orch.Plan {
 	return orch.Plan{Episodes: n, Batch: 1}
 }
 
-var c03Kinds = map[int]string{1: "plain", 2: "wrapped", 3: "logwriter", 4: "levelsettable", 5: "levelplain", 6: "plain"}
+var c03Kinds = map[int]string{1: "plain", 2: "wrapped", 3: "logwriter", 4: "levelsettable", 5: "levelplain", 6: "plain", c03Fan: "fan", c03Fan*10 + 1: "logwriter", c03Fan*10 + 2: "logwriter"}
+
+// c03Fan is one caller-owned fan-out list (slog.LWs{71, 72}) that may be given to several loggers; it is
+// set and added like any writer, never removed (the statement does not say what removing a list means)
+const c03Fan = 7
 
 const (
 	c03CustomErr  = 21 // registered with the error-device option
@@ -61,7 +65,7 @@ func (p *C03) Gen(seed uint64, i int, tier string) *scen.Scenario {
 	nextID := 1
 	n := 0
 	wop := func(w int) (int, string) { return w, c03Kinds[w] }
-	pickW := func() int { return r.Range(1, 6) }
+	pickW := func() int { return r.Range(1, 7) }
 	errSevs := []int{model.Panic, model.Fatal, model.Error, model.Warn, model.Fail}
 	normSevs := []int{model.Info, model.Debug, model.Trace, model.Always, model.OK, model.Success}
 	allSevs := append(append(append([]int{}, errSevs...), normSevs...), c03CustomErr, c03CustomNorm, c03CustomNormE, c03CustomErrI, c03CustomNormF)
@@ -167,23 +171,26 @@ func (p *C03) Gen(seed uint64, i int, tier string) *scen.Scenario {
 			if len(m.Normal) > 0 && r.Chance(3, 4) {
 				w = scen.Pick(r, m.Normal)
 			}
-			if w < 0 {
+			if w < 0 || w == c03Fan {
 				continue
 			}
 		case "remove_errwriter":
 			if len(m.Error) > 0 && r.Chance(3, 4) {
 				w = scen.Pick(r, m.Error)
 			}
-			if w < 0 {
+			if w < 0 || w == c03Fan {
 				continue
 			}
 		case "remove_level_writer", "reset_level_writer":
-			for s, l := range m.Leveled {
-				if len(l) > 0 && r.Chance(3, 4) {
+			for _, s := range sortedKeysIntSlice(m.Leveled) { // (sorted: the generator must be a function of the PRNG only)
+				if l := m.Leveled[s]; len(l) > 0 && r.Chance(3, 4) {
 					lvl = s
 					w = l[0]
 					break
 				}
+			}
+			if kind == "remove_level_writer" && w == c03Fan {
+				continue
 			}
 		}
 		_, wk := wop(w)
@@ -267,6 +274,11 @@ func (p *C03) Check(sc *scen.Scenario, run *orch.Run, env *orch.Env) []orch.Viol
 		got[model.Stderr] = bytes.Count(run.Stderr, []byte(op.Tok))
 		exp := map[int]int{}
 		for _, w := range want {
+			if w == c03Fan {
+				exp[c03Fan*10+1]++
+				exp[c03Fan*10+2]++
+				continue
+			}
 			exp[w]++
 		}
 		class := "normal"
@@ -288,7 +300,11 @@ func (p *C03) Check(sc *scen.Scenario, run *orch.Run, env *orch.Env) []orch.Viol
 				if got[w] > exp[w] {
 					rule = "C03.route.extra"
 				}
-				culprit := c03Culprit(sc.Setup, i, op.L, op.Lvl, w, reg)
+				cw := w
+				if w/10 == c03Fan {
+					cw = c03Fan // a member of the fan-out list: its membership changes with the list's
+				}
+				culprit := c03Culprit(sc.Setup, i, op.L, op.Lvl, cw, reg)
 				out = append(out, orch.Violation{Rule: rule, Witness: "culprit=" + culprit,
 					Detail: fmt.Sprintf("probe %s (severity %s, %s class) on logger %d after setup[%d]: destination %s(%d) received it %d time(s), the configuration history denotes %d (model normal=%v error=%v leveled=%v); last op that changed its membership: %s",
 						op.Tok, model.LevelName(op.Lvl), class, op.L, i, destName(w, kinds), w, got[w], exp[w], m.Normal, m.Error, m.Leveled, culprit)})
@@ -453,4 +469,13 @@ func (p *C03) Classify(sc *scen.Scenario, run *orch.Run) (string, bool) {
 		dests[model.Stderr] = true
 	}
 	return fmt.Sprintf("%x", scen.HashString(sb.String())), removeAfterAdd && len(dests) >= 3
+}
+
+func sortedKeysIntSlice(m map[int][]int) []int {
+	ks := make([]int, 0, len(m))
+	for k := range m {
+		ks = append(ks, k)
+	}
+	sort.Ints(ks)
+	return ks
 }
